@@ -42,18 +42,20 @@ def query_tr(tr):
             '<C:calendar-data/></D:prop><C:filter><C:comp-filter name="VCALENDAR"><C:comp-filter name="VEVENT"><C:time-range %s/>'
             '</C:comp-filter></C:comp-filter></C:filter></C:calendar-query>' % tr)
 
+STOCK = ["utf-8"]          # the storage encoding of the pair under test (both sides and the scratch application)
+
 HREFS = ["a.ics", "b.ics", "c.ics", "d.ics"]
 UIDS = ["u1", "u2", "u3", "u4", "u5"]
 
 
 def ev(uid, variant, pad=""):
     return ("BEGIN:VCALENDAR\r\nVERSION:2.0\r\nPRODID:-//verif//EN\r\nBEGIN:VEVENT\r\nUID:%s\r\nDTSTAMP:20240101T000000Z\r\n"
-            "DTSTART:20240102T100000Z\r\nDTEND:20240102T110000Z\r\nSUMMARY:v%d%s\r\nEND:VEVENT\r\nEND:VCALENDAR\r\n" % (uid, variant, pad))
+            "DTSTART:20240102T100000Z\r\nDTEND:20240102T110000Z\r\nSUMMARY:v%d caf\u00e9%s\r\nEND:VEVENT\r\nEND:VCALENDAR\r\n" % (uid, variant, pad))
 
 
 def cal(objs):
     return ("BEGIN:VCALENDAR\r\nVERSION:2.0\r\nPRODID:-//verif//EN\r\n" + "".join(
-        "BEGIN:VEVENT\r\nUID:%s\r\nDTSTAMP:20240101T000000Z\r\nDTSTART:20240102T100000Z\r\nDTEND:20240102T110000Z\r\nSUMMARY:v%d\r\nEND:VEVENT\r\n"
+        "BEGIN:VEVENT\r\nUID:%s\r\nDTSTAMP:20240101T000000Z\r\nDTSTART:20240102T100000Z\r\nDTEND:20240102T110000Z\r\nSUMMARY:v%d caf\u00e9\r\nEND:VEVENT\r\n"
         % (u, v) for u, v in objs) + "END:VCALENDAR\r\n")
 
 
@@ -86,7 +88,7 @@ class Side:
 
     def conf(self):
         return {"storage": {"use_mtime_and_size_for_item_cache": str(self.mode_stat), "use_cache_subfolder_for_item": str(self.item_sub)},
-                "logging": {"storage_cache_actions_on_debug": "True"}, "auth": {"type": "none"}}
+                "logging": {"storage_cache_actions_on_debug": "True"}, "auth": {"type": "none"}, "encoding": {"stock": STOCK[0]}}
 
     def restart(self, mode_stat):
         self.mode_stat = mode_stat
@@ -155,6 +157,7 @@ class Pair:
         self.ctx = ctx
         self.rng = rng
         self.tap = LogTap()
+        STOCK[0] = rng.choice(["utf-8", "utf-8", "iso-8859-1"])
         self.ref = Side(False, False)
         self.sut = Side(rng.random() < 0.5, rng.random() < 0.4, self.tap)
         self.log = []
@@ -192,7 +195,7 @@ class Pair:
     def parse_real(self, raw):
         """what a server with an empty cache derives from these bytes (observed on a scratch application)"""
         if self.scratch is None:
-            self.scratch = App({"auth": {"type": "none"}})
+            self.scratch = App({"auth": {"type": "none"}, "encoding": {"stock": STOCK[0]}})
             st, _, _ = self.scratch.request("MKCALENDAR", "/u/s/", login="u:pw")
         d = os.path.join(self.scratch.folder, "collection-root", "u", "s")
         shutil.rmtree(os.path.join(d, ".Radicale.cache"), ignore_errors=True)
@@ -413,7 +416,7 @@ def run_history(ctx, rng, hid, length):
                 href = rng.choice(HREFS)
                 q = rng.random()
                 if q < 0.6:
-                    raw = ev(rng.choice(UIDS), rng.randint(1, 3), pad=rng.choice(["", "", " x", "  "])).encode()
+                    raw = ev(rng.choice(UIDS), rng.randint(1, 3), pad=rng.choice(["", "", " x", "  "])).encode(STOCK[0])
                 elif q < 0.8:
                     raw = b"BEGIN:VCALENDAR\r\nthis is not an item\r\n"
                 else:
